@@ -1,5 +1,6 @@
 import JV.Drv.Common
 import JV.Spec.Rfc8259
+import JV.Model.JsonEscape
 namespace JV
 namespace Drv
 open Spec.Rfc8259
@@ -47,6 +48,20 @@ def jsonTextLine : List String → String
       match parseText (parseFlags fl) s with
       | some v => "ok " ++ " ".intercalate (jtTokens v)
       | none => "err"
+  | ["esc", ea, es, x] =>
+    match hexArgX x with
+    | none => "bad-op"
+    | some s =>
+      match Model.JsonEscape.escapeString (ea = "1") (es = "1") s with
+      | some e => "ok x" ++ Wire.hexOfBytes e
+      | none => "err"
+  | ["unesc", x] =>
+    match hexArgX x with
+    | none => "bad-op"
+    | some s =>
+      match parseString (34 :: (s ++ [34])) with
+      | some (b, []) => "ok x" ++ Wire.hexOfBytes b
+      | _ => "err"
   | _ => ""
 where
   hexArgX (s : String) : Option Bytes :=
